@@ -29,7 +29,7 @@ func C09(c *Ctx) {
 		return
 	}
 	cloneOwnership(c, "C09-a", nil)
-	r.MinRule("C09-a", 12)
+	r.MinRule("C09-a", 8)
 
 	ap := g.Pkg("ast")
 	_ = ap
@@ -508,6 +508,12 @@ func clonesListElementwise(c *Ctx, fd *ast.FuncDecl, body []ast.Stmt, src, field
 		for _, e := range p[lo+1 : hi] {
 			if e.Kind == "set" && e.Text == local+"=append("+local+",cloneExpr("+src+"[#1]))" {
 				ok = true
+			}
+			// filled by index: the list was made with the length of the source
+			if e.Kind == "set" && e.Text == local+"[#1]=cloneExpr("+src+"[#1])" {
+				if v, _ := lastSet(p[:lo], local); strings.HasPrefix(v, "make(") && strings.HasSuffix(v, ",len("+src+"))") {
+					ok = true
+				}
 			}
 		}
 		if !ok || len(p[lo+1:hi].facts()) > 0 {
